@@ -5,6 +5,7 @@ use std::io::{BufRead, BufWriter, Write};
 mod util;
 mod lexical;
 mod literal;
+mod ident;
 mod dump;
 
 fn main() {
@@ -44,6 +45,8 @@ fn dispatch(t: &[&str]) -> String {
     match t[0] {
         "esc" | "tok" => lexical::run(t),
         "lit" => literal::run(t),
+        "iden" => ident::run(t),
+        "idenpos" => ident::POSITIONS.join(" "),
         other => format!("UNKNOWN-OP {}", other),
     }
 }
